@@ -198,6 +198,9 @@ class Driver:
 
     def send_packet(self, pk):
         self.sent.append((pk, self.closed, pk.header, tuple(pk.data)))
+        hook, _ENV[0].during_send = getattr(_ENV[0], 'during_send', None), None
+        if hook is not None:
+            hook()          # something happens on another thread while this (blocking) driver call has not returned yet
 
     def receive_packet(self, wait=0):
         raise Yield()
@@ -232,6 +235,8 @@ SEND, FIRE, RX, CLOSE, ERROR, OPEN = 'send', 'fire', 'rx', 'close', 'error', 'op
 # EXPIRE: a timer's interval elapses and its thread is about to call the function (from now on cancel() has no effect, as with
 # threading.Timer) but the call is delayed, e.g. behind another sender holding the send lock; RUN: the delayed call happens
 EXPIRE, RUN = 'expire', 'run'
+# FASTSEND: the answer is dispatched by the receiver thread while the sender is still inside the driver's blocking send
+FASTSEND = 'send+fast-answer'
 
 
 class CheckedLock:
@@ -378,7 +383,7 @@ def h_history(sym):
         new_timers()
         sym.goal('closed' if kind == CLOSE else 'link-error')
 
-    def do_send(r):
+    def do_send(r, fast=False):
         pk = CRTPPacket()
         pk.set_header(r['port'], r['chan'])
         pk.data = tuple(r['exp']) + (0xA0 + r['i'],)
@@ -391,6 +396,10 @@ def h_history(sym):
                     sym.assume(not (o['port'] == r['port'] and o['chan'] == r['chan'] and o['exp'] == r['exp']))
         env.tag = r
         st['closing'] = None
+        if fast:
+            def answer_now():
+                cf.packet_received.call(CRTPPacket(pk.header, list(r['exp']) + [0x5A]))
+            env.during_send = answer_now
         if r['timeout'] is None:
             cf.send_packet(pk, expected_reply=tuple(r['exp']))
         else:
@@ -405,7 +414,13 @@ def h_history(sym):
         assert len(tx) == 1 and tx[0][1] is pk and tx[0][0] is ln, ('O1: a submitted packet is transmitted exactly once', len(tx))
         assert tx[0][2] == r['hdr'] and tx[0][3] == r['data']
         r['tx'] = 1
-        if ln.needs_resending:
+        if ln.needs_resending and fast:
+            # answered before the send call returned: the request is not pending; whatever timer exists must never retransmit
+            # (checked when the remaining live timers are fired)
+            r['pending'] = False
+            r['answered'] = True
+            sym.goal('answered-during-send')
+        elif ln.needs_resending:
             mine = [t for t in tm if t.live()]
             assert len(mine) == 1 and len(tm) == 1, ('O1: exactly one retry timer per request on a resending link', len(tm))
             if B.get('check_interval', True):
@@ -478,6 +493,8 @@ def h_history(sym):
         menu = []
         if SEND in kinds and nsent < P and (st['cur'] is not None or B.get('send_closed', False)):
             menu.append((SEND, nsent))
+        if FASTSEND in kinds and nsent < P and st['cur'] is not None and not any(o['pending'] for o in reqs):
+            menu.append((FASTSEND, nsent))
         if FIRE in kinds and st['nfire'] < B.get('max_fire', NEV):
             for t in env.timers:
                 if t.live():
@@ -503,6 +520,9 @@ def h_history(sym):
         kind, arg = menu[sym.choice(f'ev{k}', len(menu))]
         if kind == SEND:
             do_send(reqs[arg])
+            nsent += 1
+        elif kind == FASTSEND:
+            do_send(reqs[arg], fast=True)
             nsent += 1
         elif kind == FIRE:
             st['nfire'] += 1
@@ -547,6 +567,10 @@ def h_history(sym):
 
 ALL = (SEND, FIRE, RX, CLOSE, ERROR, OPEN)
 DELAYED = [
+    Harness('fast-answer', h_history, quick=dict(p=2, concrete=True, events=4, kinds=(SEND, FASTSEND, FIRE, RX), nr=True, sessions=1, max_rx=1),
+            thorough=dict(p=3, concrete=True, events=5, kinds=(SEND, FASTSEND, FIRE, RX, CLOSE), nr=True, sessions=1, max_rx=2),
+            goals=('answered-during-send',), timeout=(600, 1800),
+            note='the answer is dispatched while the sender is still inside the driver\'s blocking send_packet'),
     Harness('delayed-callback', h_history,
             quick=dict(p=2, concrete=True, events=5, kinds=(SEND, EXPIRE, RX, CLOSE), nr=True, sessions=1, max_rx=2),
             thorough=dict(p=2, concrete=True, events=6, kinds=(SEND, EXPIRE, FIRE, RX, CLOSE, ERROR, OPEN), nr=True, sessions=2, max_rx=2),
